@@ -179,13 +179,22 @@ def gen_config(ctx: Ctx, d: int, n_lead: int, ntypes: int, budget: int, even: in
     return Config(d, n_lead, types, spatial, batch, chans[:len(types)], primes, torus)
 
 
-def lead_indices(ctx: Ctx, lead, cap: int):
-    """all leading multi-indices, or first + last + a seeded sample of `cap`"""
+def entries_bucket(cfg) -> str:
+    """histogram bucket of the largest number of leading entries (product of the leading axes) of a block"""
+    n = max([int(np.prod(cfg.lead(i))) for i in range(len(cfg.types))] or [1]) if cfg.n_lead else 1
+    if n <= 1024:
+        return "<=1024"
+    return ">1024, multiple of 1024" if n % 1024 == 0 else ">1024, not a multiple of 1024"
+
+
+def lead_indices(ctx: Ctx, lead, cap: int, tail: int = 0):
+    """all leading multi-indices, or first + last + a seeded sample of `cap` (+ the last `tail` ones)"""
     idx = list(itertools.product(*[range(n) for n in lead]))
-    if len(idx) <= cap:
+    if len(idx) <= cap + tail:
         return idx
     pick = {0, len(idx) - 1}
     pick.update(int(i) for i in ctx.rng.choice(len(idx), size=cap - 2, replace=False))
+    pick.update(range(len(idx) - tail, len(idx)))
     return [idx[i] for i in sorted(pick)]
 
 
@@ -296,7 +305,7 @@ def single_tge(geom, jnp, d, img, p, g, torus, alt: bool):
     return to_int(geom.times_group_element(d, x, p, np.asarray(g)))
 
 
-def check_tge(ctx: Ctx, geom, jnp, cfg: Config, g, cap: int):
+def check_tge(ctx: Ctx, geom, jnp, cfg: Config, g, cap: int, tail: int = 0):
     blocks = cfg.blocks()
     mi = make_mi(geom, jnp, blocks, cfg.d, cfg.torus)
     case = {"op": "times_group_element", **cfg.describe(), "g": mat_list(g)}
@@ -304,6 +313,7 @@ def check_tge(ctx: Ctx, geom, jnp, cfg: Config, g, cap: int):
     ctx.case(("tge",) + cfg.key() + (str(mat_list(g)),), nontriv, sample=case)
     ctx.hist("op", "times_group_element"); ctx.hist("d", cfg.d); ctx.hist("n_leading", cfg.n_lead)
     ctx.hist("n_types", len(cfg.types)); ctx.hist("prime_extents", cfg.primes)
+    ctx.hist("leading_entries", entries_bucket(cfg))
     for k, _ in cfg.types:
         ctx.hist("k", k)
     try:
@@ -328,7 +338,7 @@ def check_tge(ctx: Ctx, geom, jnp, cfg: Config, g, cap: int):
             bad.append(f"block {(k, p)}: shape {None if ob is None else ob.shape}, expected {want_shape}")
             continue
         impl[(k, p)] = ob
-        for n, li in enumerate(lead_indices(ctx, cfg.lead(i), cap)):
+        for n, li in enumerate(lead_indices(ctx, cfg.lead(i), cap, tail)):
             want = single_tge(geom, jnp, cfg.d, b[li], p, g, cfg.torus, alt=bool(n % 2))
             if want is None or not np.array_equal(ob[li], want):
                 bad.append(f"block {(k, p)} at leading index {list(li)} is not the single-image action on that image")
@@ -350,7 +360,7 @@ def check_tge(ctx: Ctx, geom, jnp, cfg: Config, g, cap: int):
         ctx.violation("correspondence", f"is_torus {tuple(out.is_torus)} vs model {mj['is_torus']}", case)
 
 
-def check_pool(ctx: Ctx, geom, jnp, cfg: Config, patch: int, cap: int):
+def check_pool(ctx: Ctx, geom, jnp, cfg: Config, patch: int, cap: int, tail: int = 0):
     blocks = cfg.blocks()
     mi = make_mi(geom, jnp, blocks, cfg.d, cfg.torus)
     scale = patch ** cfg.d
@@ -358,6 +368,7 @@ def check_pool(ctx: Ctx, geom, jnp, cfg: Config, patch: int, cap: int):
     case = {"op": "average_pool", **cfg.describe(), "patch_len": patch}
     ctx.case(("pool",) + cfg.key() + (patch,), cfg.n_lead > 0, sample=case)
     ctx.hist("op", "average_pool"); ctx.hist("d", cfg.d); ctx.hist("n_leading", cfg.n_lead)
+    ctx.hist("leading_entries", entries_bucket(cfg))
 
     def as_sum(a):
         a = np.asarray(a, dtype=np.float64) * scale
@@ -384,7 +395,7 @@ def check_pool(ctx: Ctx, geom, jnp, cfg: Config, patch: int, cap: int):
             bad.append(f"block {(k, p)}: shape {np.asarray(out[(k, p)]).shape}, expected {want_shape} (or non-integer patch sums)")
             continue
         impl[(k, p)] = ob
-        for n, li in enumerate(lead_indices(ctx, cfg.lead(i), cap)):
+        for n, li in enumerate(lead_indices(ctx, cfg.lead(i), cap, tail)):
             x = jnp.asarray(b[li], dtype=jnp.float32)
             if n % 2:
                 want = as_sum(geom.GeometricImage(x, p, cfg.d, cfg.torus).average_pool(patch).data)
@@ -702,6 +713,52 @@ def check_single_entry_points(ctx: Ctx, geom, jnp, n_cases: int):
             ctx.violation("correspondence", f"single-image {kind} differs from the per-image function of the Lean model", case)
 
 
+def check_many_entries(ctx: Ctx, geom, jnp, cap: int):
+    """times_group_element / average_pool on blocks with MANY leading entries (product of the leading axes in the
+    thousands, neither a power of two nor a multiple of 1024; 1-3 leading axes), tiny images: "for any number of
+    leading axes" includes any extents of them.  A second type with few channels rides along (blocks of one multi
+    image may take different code paths).  Judged like every other case: per entry against the single-image entry
+    points, on the first, seeded and the last 100 leading indices of each block."""
+    rng = ctx.rng
+    quick = ctx.tier == "quick"
+    leads = [((37,), 31), ((3, 7), 53), ((), 1100)]
+    if quick:
+        # one more seeded shape: one axis, or two axes (prime x anything) with 1025..3100 entries
+        extra = 1
+    else:
+        leads += [((), 2100), ((2, 3), 343), ((), 2048), ((41,), 50)]
+        extra = 4
+    for _ in range(extra):
+        while True:
+            if rng.integers(0, 2):
+                batch, c = (), int(rng.integers(1025, 3100))
+            else:
+                b0 = int(rng.choice([3, 5, 7, 11, 13, 29, 43]))
+                batch, c = (b0,), int(rng.integers(1025 // b0 + 1, 3100 // b0))
+            n = int(np.prod(batch)) * c
+            if n > 1024 and n % 1024 and c not in batch and c > 3:
+                break
+        leads.append((batch, c))
+    for j, (batch, c) in enumerate(leads):
+        n_lead = len(batch) + 1
+        # --- times_group_element: 2x3 (d=2) or 2x3x1.. kept tiny; k <= 1
+        d = 2 if quick or j % 3 else 3
+        spatial = [2, 3] if d == 2 else [2, 3, 1]
+        types = [[(0, 0), (1, 1)], [(1, 0)], [(0, 1), (0, 0)], [(1, 1), (0, 1)]][j % 4]
+        chans = [c] + [2] * (len(types) - 1)
+        if j % 2:
+            types, chans = types[::-1], chans[::-1]  # the big block is not always the first one
+        torus = tuple(bool(b) for b in rng.integers(0, 2, size=d))
+        cfg = Config(d, n_lead, types, spatial, list(batch), chans, False, torus)
+        gs = [g for g in refs.signed_perms(d) if np.any(np.abs(g) != np.eye(d, dtype=np.int64))]
+        check_tge(ctx, geom, jnp, cfg, gs[int(rng.integers(len(gs)))], cap, tail=100)
+        # --- average_pool, patch 2 (exact patch sums)
+        d = 2 if quick or (j + 1) % 3 else 3
+        spatial = [2, 4] if d == 2 else [2, 4, 2]
+        cfg = Config(d, n_lead, types, spatial, list(batch), chans, False, tuple(bool(b) for b in rng.integers(0, 2, size=d)))
+        check_pool(ctx, geom, jnp, cfg, 2, cap, tail=100)
+
+
 def run_methods(ctx: Ctx, geom, jax, jnp):
     quick = ctx.tier == "quick"
     budget = 6000 if quick else 60000
@@ -751,6 +808,7 @@ def run_methods(ctx: Ctx, geom, jax, jnp):
                         cfg = gen_config(ctx, d, n_lead, 2, max(big, 20000), even=3)
                         if cfg is not None:
                             check_pool(ctx, geom, jnp, cfg, 3, cap)
+    check_many_entries(ctx, geom, jnp, cap)
     check_pool_rejects(ctx, geom, jnp)
     # --- thin images: a spatial axis of extent 1 is a spatial axis (to_images, norm)
     for w in (Config(2, 1, [(1, 0), (0, 0)], [1, 4], [], [2, 3], False, (True, False)),
@@ -1159,7 +1217,9 @@ def run(ctx: Ctx):
         "MultiImage methods: d in 1..3 x 0..3 leading axes, 1-3 types (k<=2, p in {0,1}; d=1 scalars only) in several / "
         "every insertion order (every order for norm, get_component, to_images at 1-2 leading axes), all axis extents of a "
         "block pairwise distinct and different from D, primes (2,3,5,7,11,13,17) whenever the element budget allows "
-        "(histogram prime_extents), 2*prime / 3*prime spatial extents for pooling; position-encoded integer blocks (every "
+        "(histogram prime_extents), 2*prime / 3*prime spatial extents for pooling; additionally times_group_element / average_pool on tiny images (2x3, 2x4) "
+        "with 1025..3100 leading entries over 1-3 leading axes, e.g. (37,31), (3,7,53), (1100,), never a multiple of 1024 except "
+        "one (2048,) case in thorough (histogram leading_entries), the last 100 leading indices always compared; position-encoded integer blocks (every "
         "entry distinct; folded to [-125,125] for norm); B_d elements that swap axes; future_steps 1..3; every integer "
         "component (sampled beyond 5 in quick) and random slices. Per block all leading indices, or beyond 6 (quick) / 48 "
         "(thorough) the first, the last and seeded ones, are compared with the single-image entry points, alternating between the functional and the "
